@@ -23,7 +23,7 @@ import (
 )
 
 func TestMain(m *testing.M) {
-	vstat.Rule("(a) rate limiter: interleaved histories of 2-6 sources (capacity >= #sources, incl. exactly equal) under a frozen clock; oracle = non-interference by projection: each source's decision/delay sequence equals the one it gets alone on a fresh limiter along the same time-line. (b) capacity pressure: more sources than capacity, requests >= 1s apart, slow rates; oracle = lock-step reference (an eviction model 'forget exactly the tracked source nearest to expiry' under both readings of expiry, re-armed on use or fixed at creation, combined with one real single-source limiter per source incarnation); decisions must agree with one reading throughout. (c) connection limiter: generated start/finish schedules of several sources (amounts 1-3) through a gate handler; per-source projection on a fresh limiter must give the same decisions. (d) component: TTLMap Set/Get/Len/advance against a reference map (when full exactly one minimum-expiry entry disappears, nothing else). Non-trivial: >= 3 sources with >= 1 rejection each, or an insertion at full capacity.")
+	vstat.Rule("(a) rate limiter: interleaved histories of 2-6 sources (capacity >= #sources, incl. exactly equal) under a frozen clock; oracle = non-interference by projection: each source's decision/delay sequence equals the one it gets alone on a fresh limiter along the same time-line. (b) capacity pressure: more sources than capacity, requests >= 1s apart, slow rates; oracle = lock-step reference (an eviction model 'forget exactly the tracked source nearest to expiry' under both readings of expiry, re-armed on use or fixed at creation, combined with one real single-source limiter per source incarnation); decisions must agree with one reading throughout. (c) connection limiter: generated start/finish schedules of several sources (amounts 1-3) through a gate handler; per-source projection on a fresh limiter must give the same decisions. (d) component: TTLMap Set/Get/Len/advance against a reference map (when full exactly one minimum-expiry entry disappears, nothing else). Non-trivial: >= 3 sources with >= 1 rejection each, or an insertion at full capacity. (e) TestC14_BelowCapacity: tables of 512-4096 entries filled to just below capacity with random names or names sharing a 127-204 byte prefix; every source spends its whole burst once: no first request refused, nobody admitted again a second later.")
 	vstat.Main(m.Run)
 }
 
